@@ -236,6 +236,13 @@ theorem C06_pool_never_stuck_partial (cerr : Nat → Bool) (conns : List Nat) (p
     ∃ t, (PoolLock.step cerr st t).isSome = true :=
   PoolLock.some_thread_steps cerr st u (PoolLock.linv_run cerr ts _ st (PoolLock.linv_init cerr conns prog hp) hr) hu
 
+/-- with props/C06.fix-KF-C06-1.diff (connect() gives pool.mu back before it closes the late connection) the tail of
+    connect() respects the discipline for EVERY connection, faulty transport or not: the hypothesis `hp` of the three
+    theorems above then excludes nothing that the pool's methods do, i.e. they become the full property -/
+theorem C06_pool_fixed_connect_ok (cerr : Nat → Bool) (c : Nat) :
+    PoolLock.ok cerr false (PoolLock.pConnectTailFixed c) = true := by
+  simp [PoolLock.ok, PoolLock.pConnectTailFixed]
+
 /-- Counterexample on the code that exists (KF-C06-1): goroutine 0 closes the pool; goroutine 1 is the tail of
     connect() for connection 7, whose transport reports an error from Close. connect() finds the pool closed and
     closes the connection under pool.mu; closeWithError reports the transport's error to HandleError, which waits
